@@ -1,11 +1,13 @@
 package main
 
 import (
-	"strconv"
 	"fmt"
 	"os"
 	"path/filepath"
+	"runtime/debug"
+	"strconv"
 	"strings"
+	"testing/fstest"
 
 	"github.com/miekg/dns"
 	"verif/harness/bind"
@@ -324,6 +326,46 @@ func c07ErrorPositionSpace(c *fw.Ctx) {
 							})
 						}
 						r.Sample(func() any { return c07Show(text) })
+					})
+				}
+			}
+		})
+}
+
+// c07DryDirectiveSpace: long runs of directives that yield no record. The parser hands the records of a $GENERATE
+// or $INCLUDE on through a sub-parser; what it does when a sub-parser runs dry must not cost stack per directive
+// (a zone of a few megabytes is "memory proportional to the input", a goroutine stack that grows by a kilobyte per
+// line until the runtime kills the process is not). The goroutine stack is capped at 32 MiB for these cases so that
+// 60 000 lines show what otherwise takes 500 000.
+func c07DryDirectiveSpace(c *fw.Ctx) {
+	kinds := []struct{ name, line string }{
+		{"$GENERATE with an empty template", "$GENERATE 0-0 \n"},
+		{"$INCLUDE of a file without records", "$INCLUDE e\n"},
+		{"$INCLUDE of a file holding a dry $GENERATE", "$INCLUDE g\n"},
+		{"both, alternating", "$GENERATE 0-0 \n$INCLUDE e\n"},
+	}
+	c.Space("dry-directives", "n ∈ {1, 1000, 60000} directives in a row that yield no record ($GENERATE with an empty template, $INCLUDE of an empty file, $INCLUDE of a file with a dry $GENERATE, alternating), then one record; goroutine stack capped at 32 MiB: the record is returned, no error, no crash; non-trivial: n = 60000", true,
+		func(emit func(func(*fw.R))) {
+			for _, k := range kinds {
+				for _, n := range []int{1, 1000, 60000} {
+					k, n := k, n
+					emit(func(r *fw.R) {
+						if n == 60000 {
+							r.Nontrivial()
+						}
+						old := debug.SetMaxStack(32 << 20)
+						defer debug.SetMaxStack(old)
+						text := strings.Repeat(k.line, n) + "after. 5 IN A 192.0.2.1\n"
+						zp := dns.NewZoneParser(strings.NewReader(text), "example.", "main.zone")
+						zp.SetIncludeAllowed(true)
+						zp.SetIncludeFS(fstest.MapFS{"e": {Data: []byte("; nothing here\n")}, "g": {Data: []byte("$GENERATE 0-0 \n")}})
+						recs := 0
+						for _, ok := zp.Next(); ok && recs < 10; _, ok = zp.Next() {
+							recs++
+						}
+						if recs != 1 || zp.Err() != nil {
+							r.Fail("dry-directives/result", "%d × %s, then one record: %d records, Err() = %v", n, k.name, recs, zp.Err())
+						}
 					})
 				}
 			}
